@@ -444,6 +444,17 @@ func main() {
 			return true
 		})
 		def("start_checks_addr_error", "bool", coqBool(checked), "client.go Start: `if err != nil` directly follows the `switch network` statement")
+		drains := false
+		ast.Inspect(start, func(n ast.Node) bool {
+			if ce, ok := n.(*ast.CallExpr); ok && exprString(ce.Fun) == "io.Copy" && len(ce.Args) == 2 {
+				a := exprString(ce.Args[0])
+				if (a == "io.Discard" || a == "ioutil.Discard") && strings.Contains(exprString(ce.Args[1]), "Stdout") {
+					drains = true
+				}
+			}
+			return true
+		})
+		def("start_drains_stdout_after_scanner", "bool", coqBool(drains), "client.go Start: the stdout goroutine discards the rest of the stream (io.Copy(io.Discard, runner.Stdout())) once the scanner stopped")
 		def("start_timers", "list Z", coqZList(timers(start)), "client.go Start: time.After(k*time.Second) occurrences (the start timeout is config.StartTimeout, not a literal)")
 	}
 	// loadServerCert: nil TLSConfig guard
